@@ -1,7 +1,9 @@
 package props
 
 import (
+	"os"
 	"runtime"
+	"strings"
 	"testing"
 
 	"pgregory.net/rapid"
@@ -126,7 +128,10 @@ func itoa(n int) string {
 
 func genC08(t *rapid.T) streamCase {
 	wn := c07Workflow()
-	targets := []string{"passcount", "uniformity", "two-items", "random", "random", "allpass", "allpass", "one-bad", "one-bad"}
+	targets := []string{"passcount", "uniformity", "two-items", "random", "random", "allpass", "allpass", "one-bad", "one-bad", "mixed", "mixed"}
+	if v := os.Getenv("VERIF_TARGETS"); v != "" {
+		targets = strings.Split(v, ",")
+	}
 	if wn == "period" {
 		targets = append(targets, "lfsr", "lfsr")
 	}
